@@ -8,6 +8,7 @@ from roles import roles, direct_sites, callee_body, reaches
 from c01 import _site_label, d_loc
 import c02
 import c06
+import c04
 import c16
 
 EXPLANATION = (
@@ -123,6 +124,12 @@ def state_set(ctx, b, counter, rem_fields, _depth=0, _seen=None):
                 s |= state_set(ctx, cb, counter, rem_fields, _depth + 1, _seen)
     if ("field", counter) in lv:
         s.add("running")
+    # the wrapping distance of an ordered collection's two position counters = running + parked (see c04.window_form)
+    import c04
+    e0 = fl.local_expr(0)
+    if c04.window_form(ctx, b, e0) is not None or any(c04.window_form(ctx, b, c_) is not None for c_ in expr_calls(e0)):
+        s |= {"running", "heap"}
+        ctx._window_form_used = True
     for rf in rem_fields:
         if ("field", rf) in lv:
             s.add("remaining")
@@ -199,8 +206,13 @@ def r15_3(ctx, R, counter):
             e = c16._norm(ctx.flow(b).local_expr(0))
             ok = e[0] == "binop" and e[1] == "Add" and any(x[0] == "call" and re.search(r"BinaryHeap::<.*>::len$", x[1] or "") for x in (e[2], e[3])) \
                 and any(x[0] == "call" and re.search(r"Futures(Unordered|UnorderedBounded)::<.*>::len$", x[1] or "") for x in (e[2], e[3]))
+            if not ok and c04.window_form(ctx, b, ctx.flow(b).local_expr(0)) is not None:
+                ok = True        # incoming - outgoing (wrapping): the same number, given the linked index discipline
+                ctx._window_form_used = True
             ctx.ob("R15.3", b, "ordered-len=inner.len()+heap.len()", ok, d_loc(b), expr_str(e))
     ctx.floor("R15.3", "remaining-counter-fields", len(rem_fields), 1)
+    if getattr(ctx, "_window_form_used", False):
+        c04.window_links(ctx, R)
 
 
 def r15_2b(ctx, R):
